@@ -65,6 +65,21 @@ def run(ctx):
             c2, m2 = saferun.gen_safe_cases(ctx, facts, config, entries, [0, 1, 3, 8, 17], [(0, 0, 0, 0)], masks[:1], forms=("a",),
                                             cls=cls, seed_tag=tag)
             cases, meta = cases + c2, meta + m2
+        # DIMS = 1 exhaustively over the special float values (signed zeros, subnormals, infinities, NaN, extremes): a
+        # one-element shortcut taken by only one form is invisible on ordinary data
+        host = saferun.host_bits()
+        for sidx, s in entries:
+            if s["ty"] not in ("f32", "f64"):
+                continue
+            kind = saferun.SAFE_KIND[s["macro"]]
+            specials = (exprun.F32_SPECIAL + [0x7fc00000]) if s["ty"] == "f32" else (exprun.F64_SPECIAL + [0x7ff8000000000000])
+            for k, sv in enumerate(specials):
+                other = specials[(k * 7 + 3) % len(specials)]
+                la, lb, lr = saferun.shape(kind, 1)
+                a, b, r = [sv] * la, [other] * lb, [0] * lr
+                cases.append(saferun.safe_line(sidx, s, "a", None, config == "debug", 1 if config == "nightly" else 0,
+                                               host & ~masks[0] & 7, masks[0], "R", other, a, b, r))
+                meta.append((sidx, s, "a", 1, (0, 0, 0, 0), masks[0]))
         cases_c = []
         for c, m in zip(cases, meta):
             sidx, s, form, n, delta, mask = m
